@@ -32,8 +32,9 @@ TARGETS = [
 BOUNDS = {
     "documents": "K = 4 (quick) / 5 (thorough) documents: d0, d1 plain rules; d2.. correlation rules (or a plain unrelated rule when their reference set is empty) referring to any subset of the earlier documents, by name (even index) or id (odd index); each correlation's generate flag symbolic; optionally one reference to a missing rule",
     "orders": "all K! permutations (symbolic selector)",
-    "load paths": "from_dicts, from_yaml (one multi-document stream), merge of two sub-collections split at every inner position (quick: merge only with generate off / no missing reference)",
-    "outside": "more than 5 documents; load_ruleset's file I/O (its resolution logic = merge + resolve_rule_references is covered); extended-condition references",
+    "load paths": "from_dicts, from_yaml (one multi-document stream), merge of two sub-collections split at every inner position (quick: merge only with generate off / no missing reference), load_ruleset over two YAML files split at every inner position (real files in a scratch directory; quick: two reference shapes, generate off)",
+    "outside": "more than 5 documents; load_ruleset's directory recursion and callbacks",
+    "extended conditions": "EXT=1 obligations: correlation documents with >= 2 references carry them only in an extended condition expression (no 'rules' list)",
 }
 ASSUMPTIONS = [
     "when a rule is referenced by both generating and non-generating correlations the statement only fixes order-independence; the concrete choice (any non-generating referrer suppresses) is not asserted",
@@ -61,6 +62,23 @@ def make_docs(k: int, refs, gens, missing: int):
             if missing == i:
                 names.append("nope")
             multi = len(names) > 1
+            if multi and P("EXT", 0):
+                # extended condition: the references exist only in the condition expression (no 'rules' list)
+                docs.append(
+                    {
+                        "title": f"rule{i}",
+                        "name": f"rule{i}",
+                        "id": UUIDS[i],
+                        "correlation": {
+                            "type": "temporal",
+                            "group-by": ["user"],
+                            "timespan": "5m",
+                            "condition": " and ".join([f"rule{j}" for j in refs[i]] + (["nope"] if missing == i else [])),
+                            "generate": bool(gens[i]),
+                        },
+                    }
+                )
+                continue
             docs.append(
                 {
                     "title": f"rule{i}",
@@ -86,6 +104,26 @@ def load(docs, path: int, split: int):
         import yaml
 
         return SigmaCollection.from_yaml(yaml.safe_dump_all(docs))
+    if path == 3:
+        # load_ruleset over two files (documents before / from the split position), real file I/O in a scratch directory
+        import os
+        import shutil
+        import tempfile
+
+        import yaml
+
+        d = tempfile.mkdtemp(prefix="verif_c09_")
+        try:
+            files = []
+            for nm, part in (("a.yml", docs[:split]), ("b.yml", docs[split:])):
+                if part:
+                    fn = os.path.join(d, nm)
+                    with open(fn, "w", encoding="utf-8") as f:
+                        f.write(yaml.safe_dump_all(part))
+                    files.append(fn)
+            return SigmaCollection.load_ruleset(files)
+        finally:
+            shutil.rmtree(d, ignore_errors=True)
     a = SigmaCollection.from_dicts(docs[:split], resolve_references=False) if split > 0 else SigmaCollection([], resolve_references=False)
     b = SigmaCollection.from_dicts(docs[split:], resolve_references=False) if split < len(docs) else SigmaCollection([], resolve_references=False)
     m = SigmaCollection.merge([a, b])
@@ -172,9 +210,9 @@ def c09_order(r2: int, r3: int, r4: int, g2: bool, g3: bool, g4: bool, miss: int
         return True
     if P("R4", -1) >= 0 and r4 != P("R4", -1):
         return True
-    if path != 2 and split != 0:
+    if path < 2 and split != 0:
         return True
-    if path == 2 and (split < 1 or split >= k):
+    if path >= 2 and (split < 1 or split >= k):
         return True
     if P("LITE", 0) and (g2 or g3 or g4 or miss != 0):
         return True
@@ -229,6 +267,10 @@ def c09_concrete(k: int, refs_csv: str, gens_csv: str, perm_csv: str, path: int,
 OBLIGATIONS = (
     [Ob("c09_order", {"K": 4, "NPERM": 24, "PATH": p, "R3": r}, 600) for p in (0, 1) for r in range(8)]
     + [Ob("c09_order", {"K": 4, "NPERM": 24, "PATH": 2, "R3": r, "LITE": 1}, 600) for r in range(8)]
+    + [Ob("c09_order", {"K": 4, "NPERM": 24, "PATH": 0, "R3": r, "EXT": 1, "LITE": 1}, 600) for r in (3, 5, 6, 7)]
+    + [Ob("c09_order", {"K": 4, "NPERM": 24, "PATH": 3, "R3": r, "LITE": 1}, 600) for r in (1, 6)]
+    + [Ob("c09_order", {"K": 4, "NPERM": 24, "PATH": 3, "R3": r}, 3000, tier="thorough") for r in range(8)]
+    + [Ob("c09_order", {"K": 4, "NPERM": 24, "PATH": p, "R3": r, "EXT": 1}, 1800, tier="thorough") for p in (0, 1, 2) for r in (3, 5, 6, 7)]
     + [Ob("c09_order", {"K": 4, "NPERM": 24, "PATH": 2, "R3": r}, 3000, tier="thorough") for r in range(8)]
     + [Ob("c09_order", {"K": 5, "NPERM": 120, "PATH": 0, "R4": r, "LITE": 1}, 3000, tier="thorough") for r in range(1, 16)]
 )
